@@ -21,7 +21,7 @@ Reset ==
   /\ k' = [c \in Callers |-> 1]
   /\ queue' = <<>> /\ qtick' = 1 /\ pending' = 0 /\ qlen' = 0
   /\ processing' = FALSE /\ owner' = 0
-  /\ popped' = <<>> /\ ticks' = <<>> /\ results' = <<>>
+  /\ popped' = <<>> /\ ticks' = <<>> /\ results' = <<>> /\ wq' = {}
 
 TraceInit ==
   /\ Init
@@ -36,6 +36,10 @@ EvInit ==
        (IF Line.callers = Cardinality(Callers) /\ Line.mutsPer = MutsPer
            /\ {10 * Line.nest[i][1] + Line.nest[i][2] : i \in 1..Len(Line.nest)} = NestCodes
            /\ {10 * Line.prep[i][1] + Line.prep[i][2] : i \in 1..Len(Line.prep)} = PrepCodes
+           /\ {10 * Line.veto[i][1] + Line.veto[i][2] : i \in 1..Len(Line.veto)} = VetoCodes
+           \* no-op mutations: <c, k> of a caller, <c, k, 1> the Add nested by <c, k>
+           /\ {(IF Len(Line.noop[i]) = 3 THEN 100 ELSE 0) + 10 * Line.noop[i][1] + Line.noop[i][2]
+                  : i \in 1..Len(Line.noop)} = NoopCodes
         THEN {} ELSE {<<l, "scenario">>})
   /\ UNCHANGED viol
 
@@ -44,6 +48,15 @@ EvInit ==
 Matches(c, x) ==
   /\ pc'[c] = (IF x.point = "start" THEN "start" ELSE x.point)
   /\ qlen' = x.qlen /\ qtick' = x.qtick /\ processing' = x.proc
+  /\ wq' = {x.wqopen[i] : i \in 1..Len(x.wqopen)}
+
+(* WhenQueueClosed on the LOGGED values: the open channels, the queue tick     *)
+(* (read before the channels) and the gates the callers are parked at.  `in a  *)
+(* transition` = somebody is parked at pq.popped - the weaker reading, it      *)
+(* does not ask whether that transition is the one holding the tick            *)
+WqLogged(c, x) ==
+  WqOk({x.wqopen[i] : i \in 1..Len(x.wqopen)}, x.qtick,
+       \E d \in Callers : (IF d = c THEN x.point ELSE pc[d]) = "pq.popped")
 
 (* Mutex on the logged gates: nobody else may be inside the drain loop when   *)
 (* a caller parks inside it                                                   *)
@@ -66,7 +79,8 @@ EvGate ==
                     THEN {<<l, "tick">>} ELSE {})
               \* WhenQueue(t) "closes once it has been processed": the queue tick is
               \* past t  =>  the transition of t and its subscriptions are done
-              \cup (IF \E i \in 1..Len(x.wqopen) : x.wqopen[i] < x.qtick
+              \* (also when it was accepted without moving any clock tick)
+              \cup (IF c \in Callers /\ ~WqLogged(c, x)
                     THEN {<<l, "whenqueue-late">>} ELSE {})
      IN \/ /\ M
            /\ drift' = drift
@@ -78,6 +92,7 @@ EvGate ==
            \* keep the queue as long as the logged length (unknown entries are placeholders)
            /\ queue' = IF x.qlen <= Len(queue) THEN SubSeq(queue, 1, x.qlen)
                         ELSE queue \o [i \in 1..(x.qlen - Len(queue)) |-> [id |-> <<0, 0>>, tick |-> 0]]
+           /\ wq' = {x.wqopen[i] : i \in 1..Len(x.wqopen)}
            /\ UNCHANGED <<k, pending, popped, ticks, results>>
            /\ drift' = drift \cup {<<l, "gate:" \o x.point>>}
      /\ viol' = viol \cup v
